@@ -1,8 +1,200 @@
-(* Props/C15.v — property theorems only. *)
-From Coq Require Import List NArith ZArith Permutation.
-From YQ Require Import Base.Str Model.Sort Spec.Order Proofs.SortProofs.
-Import ListNotations.
+(* Props/C15.v — sort, min/max and the comparison operators agree on one
+   consistent total order.  Property theorems only (each closed by [exact]),
+   refutation witnesses by computation, one non-vacuity example.
 
+   Model: Model/Sort.v (faithful to operator_sort.go / operator_compare.go /
+   operator_sort_keys.go / lib.go parseInt64, 64-bit wrap-around and the
+   panic(err) branch explicit).  Spec: Spec/Order.v.
+
+   The consistent domain D ([pair_ok], pairwise; [consistent] for a sequence):
+   both scalars denote a value (ints accepted by parseInt64, floats finite and
+   accepted by ParseFloat), two nulls are spelled alike, the difference of two
+   ints fits in int64, an int that meets a float reads exactly as a binary64,
+   and a number never meets a string.  Each clause is delimited by a
+   [_refuted] witness below. *)
+From Coq Require Import List NArith ZArith QArith Permutation Sorted String.
+From YQ Require Import Base.Str Spec.Order Model.Sort Proofs.SortProofs.
+Import ListNotations.
+Open Scope Z_scope.
+
+(* ---------------- the spec order is a total preorder (all values) ---------------- *)
+Theorem C15_order_total_preorder : cmp_laws ord_cmp /\ cmp_laws keys_cmp.
+Proof. exact (conj ord_cmp_laws keys_cmp_laws). Qed.
+Print Assumptions C15_order_total_preorder.
+
+(* ---------------- sort / sort_by: every sequence, every comparator answer ---------------- *)
+(* whenever the sort returns (no panic), the result is a permutation of the input *)
+Theorem C15_sort_perm : forall l l' : list elem, sort_by l = Ok l' -> Permutation l l'.
+Proof. exact sort_by_perm. Qed.
+Print Assumptions C15_sort_perm.
+
+(* the insertion sort itself, for ANY boolean comparator: permutation *)
 Theorem C15_psort_perm : forall (A : Type) (lt : A -> A -> bool) (l : list A), Permutation l (psort lt l).
 Proof. exact @psort_perm. Qed.
 Print Assumptions C15_psort_perm.
+
+(* ---------------- on the consistent domain: defined, sorted, stable, idempotent, unique ---------------- *)
+Theorem C15_sort_sorted : forall l : list elem, consistent l ->
+  exists l', sort_by l = Ok l' /\ StronglySorted elem_le l'.
+Proof. exact sort_by_sorted. Qed.
+Print Assumptions C15_sort_sorted.
+
+Theorem C15_sort_stable : forall l l' : list elem, consistent l -> sort_by l = Ok l' ->
+  forall z, filter (elem_eqb z) l' = filter (elem_eqb z) l.
+Proof. exact sort_by_stable. Qed.
+Print Assumptions C15_sort_stable.
+
+Theorem C15_sort_idempotent : forall l l' : list elem, consistent l -> sort_by l = Ok l' -> sort_by l' = Ok l'.
+Proof. exact sort_by_idempotent. Qed.
+Print Assumptions C15_sort_idempotent.
+
+(* any permutation that is ordered under the spec order and keeps equal elements
+   in input order IS the model's result: the outcome does not depend on which
+   stable sorting algorithm runs (insertion sort here, symMerge in Go above 20 elements) *)
+Theorem C15_sort_unique : forall l l' : list elem, consistent l ->
+  Permutation l l' -> StronglySorted elem_le l' ->
+  (forall z, filter (elem_eqb z) l' = filter (elem_eqb z) l) -> sort_by l = Ok l'.
+Proof. exact sort_by_unique. Qed.
+Print Assumptions C15_sort_unique.
+
+(* ---------------- the comparator on D ---------------- *)
+Theorem C15_cmp_agrees_on : forall a b : scalar,
+  pair_ok a b = true -> cmp_sign a b = Some (ord_cmp (vden a) (vden b)).
+Proof. exact cmp_agrees. Qed.
+Print Assumptions C15_cmp_agrees_on.
+
+Theorem C15_cmp_total_preorder_on : forall a b c : scalar,
+  pair_ok a b = true -> pair_ok b a = true -> pair_ok b c = true -> pair_ok a c = true ->
+  (exists s, cmp_sign a b = Some s /\ cmp_sign b a = Some (CompOpp s))
+  /\ (cmp_le a b -> cmp_le b c -> cmp_le a c)
+  /\ (cmp_le a b \/ cmp_le b a).
+Proof.
+  intros a b c Hab Hba Hbc Hac.
+  exact (conj (cmp_antisym_on a b Hab Hba) (conj (cmp_trans_on a b c Hab Hbc Hac) (cmp_total_on a b Hab Hba))).
+Qed.
+Print Assumptions C15_cmp_total_preorder_on.
+
+(* ---------------- < <= > >= and min / max ---------------- *)
+Theorem C15_ops_agree : forall (or_equal greater : bool) (a b : scalar),
+  ops_ok a b = true ->
+  compare_scalars or_equal greater a b = Ok (op_spec or_equal greater (ord_cmp (vden a) (vden b))).
+Proof. exact ops_agree. Qed.
+Print Assumptions C15_ops_agree.
+
+Theorem C15_min_max_agree : forall (greater : bool) (l : list (scalar * N)),
+  (forall x y, In x l -> In y l -> ops_ok (fst x) (fst y) = true) ->
+  (l <> [] -> exists m, superlative greater l = Ok (Some m))
+  /\ (forall m, superlative greater l = Ok (Some m) ->
+        In m l /\ forall x, In x l -> sup_cmp greater (fst m) (fst x) <> Gt).
+Proof.
+  intros greater l Hok.
+  exact (conj (superlative_defined greater l Hok) (fun m => superlative_spec greater l m Hok)).
+Qed.
+Print Assumptions C15_min_max_agree.
+
+(* ---------------- sort_keys(..) changes key order only ---------------- *)
+Theorem C15_sort_keys_only_order : forall (t : tree), unique_keys t ->
+  (forall p, get p (sort_keys_rec t) = option_map sort_keys_rec (get p t))
+  /\ (forall p es, get p (sort_keys_rec t) = Some (TMap es) -> StronglySorted str_le (map fst es))
+  /\ (forall p es0, get p t = Some (TMap es0) ->
+        exists es, get p (sort_keys_rec t) = Some (TMap es) /\ Permutation (map fst es0) (map fst es)).
+Proof.
+  intros t HU.
+  exact (conj (fun p => sort_keys_values_kept p t HU)
+        (conj (fun p es => sort_keys_sorted p t es HU) (fun p es0 => sort_keys_same_keys p t es0 HU))).
+Qed.
+Print Assumptions C15_sort_keys_only_order.
+
+(* ================================================================== *)
+(* refutations: the full statement fails outside D, clause by clause   *)
+(* ================================================================== *)
+Definition S (t : tag) (s : string) : scalar := mk t (str_of_string s).
+Definition E1 (t : tag) (s : string) (i : N) : elem := mke [S t s] i.
+
+(* [9223372036854775807, -2, 1] | sort is returned unchanged although 9223372036854775807 > -2 *)
+Theorem C15_int_overflow_refuted : exists a b c : elem,
+  sort_by [a; b; c] = Ok [a; b; c] /\ elem_cmp a b = Gt /\ cmp_sign (S TInt "9223372036854775807") (S TInt "-2") = Some Lt.
+Proof.
+  exists (E1 TInt "9223372036854775807" 0), (E1 TInt "-2" 1), (E1 TInt "1" 2). vm_compute. repeat split.
+Qed.
+Print Assumptions C15_int_overflow_refuted.
+
+(* a number meets a string: 9 < 10 < "5" < 9 *)
+Theorem C15_num_str_cycle_refuted : exists a b c : scalar,
+  cmp_sign a b = Some Lt /\ cmp_sign b c = Some Lt /\ cmp_sign c a = Some Lt.
+Proof. exists (S TInt "9"), (S TInt "10"), (S TStr "5"). vm_compute. repeat split. Qed.
+Print Assumptions C15_num_str_cycle_refuted.
+
+(* [0x10, 1.5] | sort reaches panic(err) *)
+Theorem C15_hex_float_panic_refuted : exists a b : scalar,
+  cmp a b = Panic /\ sort_by [mke [a] 0; mke [b] 1] = Panic.
+Proof. exists (S TInt "0x10"), (S TFloat "1.5"). vm_compute. split; reflexivity. Qed.
+Print Assumptions C15_hex_float_panic_refuted.
+
+(* so do the YAML spellings of infinity and NaN, and integers parseInt64 rejects *)
+Theorem C15_special_float_panic_refuted :
+  cmp (S TFloat ".inf") (S TFloat "1.5") = Panic /\ cmp (S TFloat ".nan") (S TFloat ".nan") = Panic
+  /\ cmp (S TInt "0b11") (S TInt "1") = Panic /\ cmp (S TInt "-0x10") (S TInt "1") = Panic
+  /\ cmp (S TInt "18446744073709551615") (S TInt "1") = Panic.
+Proof. vm_compute. repeat split. Qed.
+Print Assumptions C15_special_float_panic_refuted.
+
+(* NaN is greater than 1.0 and 1.0 is greater than NaN *)
+Theorem C15_nan_refuted : exists a b : scalar, cmp_sign a b = Some Gt /\ cmp_sign b a = Some Gt.
+Proof. exists (S TFloat "nan"), (S TFloat "1.0"). vm_compute. split; reflexivity. Qed.
+Print Assumptions C15_nan_refuted.
+
+(* int/float through binary64, int/int exactly: a == b, b == c but a > c *)
+Theorem C15_mixed_precision_refuted : exists a b c : scalar,
+  cmp_sign a b = Some Eq /\ cmp_sign b c = Some Eq /\ cmp_sign a c = Some Gt.
+Proof.
+  exists (S TInt "9007199254740993"), (S TFloat "9007199254740992.0"), (S TInt "9007199254740992").
+  vm_compute. repeat split.
+Qed.
+Print Assumptions C15_mixed_precision_refuted.
+
+(* two nulls are ordered by their spelling *)
+Theorem C15_null_spelling_refuted : exists a b : scalar,
+  vden a = vden b /\ cmp_sign a b = Some Gt /\
+  sort_by [mke [a] 0; mke [b] 1] = Ok [mke [b] 1; mke [a] 0].
+Proof. exists (S TNull "~"), (S TNull "null"). vm_compute. repeat split. Qed.
+Print Assumptions C15_null_spelling_refuted.
+
+(* null against a non-null: every operator answers false, so min depends on the input order *)
+Theorem C15_ops_null_refuted : exists a b : scalar,
+  ord_cmp (vden a) (vden b) = Lt /\ compare_scalars false false a b = Ok false /\ compare_scalars true false a b = Ok false
+  /\ superlative false [(b, 0%N); (a, 1%N)] = Ok (Some (b, 0%N))
+  /\ superlative false [(a, 0%N); (b, 1%N)] = Ok (Some (a, 0%N)).
+Proof. exists (S TNull "null"), (S TInt "1"). vm_compute. repeat split. Qed.
+Print Assumptions C15_ops_null_refuted.
+
+(* the operators compare an int with a float through binary64 *)
+Theorem C15_ops_mixed_precision_refuted : exists a b : scalar,
+  ord_cmp (vden a) (vden b) = Gt /\ compare_scalars false true a b = Ok false.
+Proof. exists (S TInt "9007199254740993"), (S TFloat "9007199254740992.0"). vm_compute. split; reflexivity. Qed.
+Print Assumptions C15_ops_mixed_precision_refuted.
+
+(* a repeated key: sortKeys loses a value *)
+Theorem C15_sort_keys_dup_refuted : exists t : tree,
+  get [SKey [97%N]] t = Some (TScalar [49%N]) /\ get [SKey [97%N]] (sort_keys_rec t) = Some (TScalar [50%N]).
+Proof. exists (TMap [([97%N], TScalar [49%N]); ([97%N], TScalar [50%N])]). vm_compute. split; reflexivity. Qed.
+Print Assumptions C15_sort_keys_dup_refuted.
+
+(* ================================================================== *)
+(* non-vacuity: a consistent sequence mixing null, booleans, ints in   *)
+(* three spellings (one of them equal to a float), floats, duplicates  *)
+(* ================================================================== *)
+Example C15_example :
+  let l := [E1 TInt "0x10" 0; E1 TFloat "1.5" 1 ; E1 TBool "true" 2; E1 TNull "null" 3; E1 TInt "16" 4;
+            E1 TFloat "16.0" 5; E1 TInt "-3" 6; E1 TBool "False" 7; E1 TInt "1_000" 8; E1 TFloat "0.1" 9] in
+  let l2 := [E1 TInt "0x10" 0; E1 TInt "9223372036854775807" 1; E1 TInt "0" 2; E1 TStr "x" 3] in
+  consistentb (tl l) = true /\ consistent (tl l)
+  /\ map e_id (match sort_by (tl l) with Ok r => r | _ => [] end) = [3; 7; 2; 6; 9; 1; 4; 5; 8]%N
+  /\ consistentb l = false            (* 0x10 next to a float: outside D, and indeed a panic *)
+  /\ sort_by l = Panic
+  /\ consistentb (firstn 3 l2) = true /\ consistentb l2 = false
+  /\ int_reads_exact (S TInt "9007199254740992") = true /\ int_reads_exact (S TInt "9007199254740993") = false.
+Proof.
+  cbv zeta. split; [vm_compute; reflexivity|]. split; [apply consistentb_sound; vm_compute; reflexivity|].
+  vm_compute. repeat split.
+Qed.
